@@ -127,6 +127,22 @@ def elements(buf, start=0, end=None, strict=True):
     return out
 
 
+# which children of which element are themselves sequences of TLVs (by the packet format, not by guessing from type numbers)
+_NESTED = {None: {0x05, 0x06}, 0x05: {0x07, 0x2c}, 0x06: {0x07, 0x14, 0x16}, 0x07: set(), 0x14: {0x1a}, 0x1a: set(),
+           0x16: {0x1c}, 0x2c: {0x1c}, 0x1c: {0x07}}
+
+
+def well_nested(buf, start=0, end=None, parent=None):
+    """every element lies entirely inside its parent (Interest/Data, Name, MetaInfo, SignatureInfo, KeyLocator)"""
+    try:
+        for typ, _s, vs, e in elements(buf, start, end, strict=False):
+            if typ in _NESTED.get(parent, ()) and not well_nested(buf, vs, e, typ):
+                return False
+    except (TlvError, IndexError):
+        return False
+    return True
+
+
 def single(buf, strict=True):
     """buf must be exactly one TLV -> (type, value_start, end)."""
     els = elements(buf, 0, len(buf), strict)
